@@ -108,15 +108,19 @@ Print Assumptions prom_select_exact.
 (* End to end (both statements answered by the reference interpreter, then labelsGetter, ReshuffleSeries and the
    final sort): Select returns each matching series that has a sample in the range exactly once, under its own
    label set, with exactly its in-range samples in ascending time order. Extra hypotheses: a series with a sample
-   in the range is announced between the date bounds of the labels request (C04's property), and stored series with
+   in the range is announced as a METRIC series between the date bounds of the labels request (C04's property; the
+   request reads metric-typed rows only since the fix of prom-labels-fetch-untyped), and stored series with
    one label set carry one fingerprint (the fingerprint is a hash of the labels; ReshuffleSeries keys by the label
-   list since fix 3acbc45, no longer by the ambiguous text "n=v n=v"). *)
+   list since fix 3acbc45, no longer by the ambiguous text "n=v n=v").  db_ok asks "one fingerprint, one label set" of the
+   METRIC series rows only: the series rows of log streams are free, also to share a fingerprint with a metric series
+   under another label set (select_ignores_log_streams below). *)
 Theorem prom_select_exact_series : forall (re_match re_full : string -> string -> bool),
   (forall v p, re_match v (anchor p) = re_full v p) ->
   forall cluster dbname h ms db, use_raw_data h = true -> h_step h = 0 ->
     db_ok (day_from h) (d_gin db) (d_series db) -> selective re_full ms = true -> (List.length ms <= 63)%nat ->
     (forall sm, List.In sm (d_samples db) -> window_ok h sm = true ->
-       exists s, List.In s (d_series db) /\ t_fp s = sm_fp sm /\ day_from h <= t_date s /\ t_date s <= day_to h) ->
+       exists s, List.In s (d_series db) /\ t_fp s = sm_fp sm /\ (t_type s = 2 \/ t_type s = 0) /\
+                 day_from h <= t_date s /\ t_date s <= day_to h) ->
     (forall s1 s2, List.In s1 (d_series db) -> List.In s2 (d_series db) ->
        sort_labels (sort_labels (t_labels s1)) = sort_labels (sort_labels (t_labels s2)) -> t_fp s1 = t_fp s2) ->
     exists rows out, prom_query_rows re_match re_full cluster dbname h ms db = Some rows /\
@@ -521,3 +525,97 @@ Print Assumptions prom_select_both_statements_interpreted.
 Theorem string_of_N_injective : forall a b, string_of_N a = string_of_N b -> a = b.
 Proof. exact string_of_N_inj. Qed.
 Print Assumptions string_of_N_injective.
+
+(* ---------- the type conjunct of the labels request (defect prom-labels-fetch-untyped, repaired) ---------- *)
+(* The labels request reads metric-typed series rows only: its reply is the reply over the metric rows. *)
+Theorem labels_request_reads_metric_rows_only : forall D1 D2 fps series,
+  fetch_rows D1 D2 fps series = fetch_rows D1 D2 fps (filter metric_row series).
+Proof. exact fetch_rows_metric_only. Qed.
+Print Assumptions labels_request_reads_metric_rows_only.
+
+(* Hence the series rows of LOG streams -- whatever their fingerprints and label sets, in particular a log stream sharing
+   the fingerprint of a metric series (two label sets with one 32-bit Bernstein fingerprint) -- do not change what a PromQL
+   Select returns: each selected series is handed out under its OWN label set.  Before the fix the request read them
+   (Example log_twin_pollutes_untyped_request: series 31 {__name__="up", instance="h:9090"} came back as
+   {job="logs", stream="stdout"}). *)
+Theorem select_ignores_log_streams : forall re_match re_full cluster dbname h ms db logs,
+  Forall (fun s => t_type s = 1) logs ->
+  prom_select re_match re_full cluster dbname h ms
+    {| d_gin := d_gin db; d_samples := d_samples db; d_series := (d_series db ++ logs)%list |} =
+  prom_select re_match re_full cluster dbname h ms db.
+Proof. exact PromLabelsProofs.select_ignores_log_streams. Qed.
+Print Assumptions select_ignores_log_streams.
+
+(* ---------- any look-back ---------- *)
+(* promql_over_raw_samples_partial for an engine configured with ANY look-back L (EngineOpts.LookbackDelta; qryn passes 0,
+   i.e. Prometheus' 5 min default = lookback_ms, which the check reads from prometheusQueryRangeRouter.go and the engine's
+   source on every run): the hints of an instant selector then carry Start = first evaluation time - L, and the guard of
+   step bucketing is "Step divides L" (hints_guard_L; hints_guard = hints_guard_L lookback_ms by definition). *)
+Theorem promql_over_raw_samples_any_lookback : forall (re_match re_full : string -> string -> bool),
+  (forall v p, re_match v (anchor p) = re_full v p) ->
+  forall L cluster dbname h ms db,
+    use_raw_data h = true -> 0 <= h_start h -> hints_guard_L L h = true ->
+    db_ok (from_day (h_start h * 1000000)) (d_gin db) (d_series db) ->
+    selective re_full ms = true -> (List.length ms <= 63)%nat ->
+    exists rows, prom_query_rows re_match re_full cluster dbname h ms db = Some rows /\
+      forall fp,
+        let raw := rows_of fp (expected_rows re_full h ms db) in
+        let got := rows_of fp rows in
+        (plain_hints h = true -> got = raw) /\
+        (is_instant (h_func h) = true -> forall k,
+           stale_edge (h_start h) (h_step h) L (h_start h + L + k * h_step h) raw = false ->
+           visible L (h_start h + L + k * h_step h) got = visible L (h_start h + L + k * h_step h) raw) /\
+        (is_instant (h_func h) = false -> forall k,
+           window (h_range h) (h_start h + h_range h + k * h_step h) got =
+           window (h_range h) (h_start h + h_range h + k * h_step h) raw).
+Proof. intros re_match re_full Hl. intros. now apply (promql_over_raw_samples_guarded_L re_match re_full Hl). Qed.
+Print Assumptions promql_over_raw_samples_any_lookback.
+
+(* ---------- the down-sampled path: OUTSIDE the quantifier of this property, and stated to be ---------- *)
+From Qryn Require Import model.PromDown proofs.PromDownProofs.
+
+(* Every theorem above about the samples handed to the engine carries the hypothesis use_raw_data h = true: C17 speaks of
+   "a PromQL query over raw samples".  When use_raw_data h = false (Start on the 15 s grid, Step >= 15 s, no range below
+   15 s, a function the roll-up serves: use_raw_data_decision) Select reads the roll-up table and never the stored samples: *)
+Theorem downsample_path_reads_the_rollup : forall re_full cluster dbname h ms, use_raw_data h = false ->
+  s_from (fst (querier_transpile re_full cluster dbname h ms)) =
+  Some (SimpleCol (if cluster then "`" ++ dbname ++ "`.metrics_15s_dist" else "metrics_15s")%string "samples"%string).
+Proof. exact downsample_reads_the_rollup. Qed.
+Print Assumptions downsample_path_reads_the_rollup.
+
+(* its statement has a meaning all the same (model/PromDown.v: a row of metrics_15s is modelled by the stored samples its
+   aggregate states summarise): the interpreter on the planner's OWN tree = the list reading down_rows -- rows of the
+   selected fingerprints (the SAME fingerprintsQuery as the raw path: the matcher theorems apply) whose 15 s bucket start
+   lies in [from, to] (ns, closed), grouped by (fingerprint, Step bucket), valued by the function's merge expression and
+   stamped 1 ms before the Step bucket; for every hint, matcher set and context without LIMIT *)
+Theorem downsample_statement_sql_meaning : forall re_match re_full h c ms gin tbl, c_limit c <= 0 ->
+  eval_down re_match (transpile_label_matchers_downsample re_full h c ms) gin tbl =
+  down_rows h (c_from_ns c) (c_to_ns c) (sel_type c)
+    (fp_sel_abs re_match (from_day (c_from_ns c)) (sel_type c) (pos_clauses re_full ms) (neg_clauses re_full ms) gin) tbl.
+Proof. exact eval_down_statement. Qed.
+Print Assumptions downsample_statement_sql_meaning.
+
+(* what a down-sampled sample is relative to the stored samples: with metrics_15s maintained by the materialized view
+   (m15_of), the group behind the output row (fp, T) summarises exactly the stored samples of fp whose 15 s bucket START
+   passes the statement's conditions and falls into the Step bucket stamped T -- not the samples inside [Start, End]: the
+   bucket of a sample up to 15 s after End starts inside the range *)
+Theorem downsampled_sample_summarises_stored_samples : forall h from_ns to_ns t fps fp T samples,
+  existsb (N.eqb fp) fps = true ->
+  parts_of (fp, T) (map (fun r => ((q_fp r, down_stamp h (q_ts_ns r)), r)) (filter (down_keep h from_ns to_ns t fps) (m15_of samples))) =
+  map (fun s => (sm_ts_ns s, sm_value s)) (summarised h from_ns to_ns t fp T samples).
+Proof. exact group_parts_are_stored_samples. Qed.
+Print Assumptions downsampled_sample_summarises_stored_samples.
+
+(* and therefore the property's statement about the samples handed over cannot be extended to this path: a down-sampled
+   Select hands over the value of a sample stored AFTER hints.End under a timestamp at which no sample was stored
+   (Example downsample_witness beside the raw meaning expected_rows of the same request) *)
+Theorem downsample_path_outside_the_quantifier :
+  exists h ms db rows r,
+    use_raw_data h = false /\
+    eval_down re_none (fst (querier_transpile re_none false "qryn" h ms)) (d_gin db) (m15_of (d_samples db)) = Some rows /\
+    List.In r rows /\
+    (forall s, List.In s (d_samples db) -> Z.quot (sm_ts_ns s) 1000000 <> d_ts r) /\
+    (exists s, List.In s (d_samples db) /\ sm_value s = d_num r /\ h_end h < Z.quot (sm_ts_ns s) 1000000 /\
+               forall s', List.In s' (d_samples db) -> sm_value s' = d_num r -> s' = s).
+Proof. exact downsample_not_in_range_samples. Qed.
+Print Assumptions downsample_path_outside_the_quantifier.
